@@ -118,13 +118,24 @@ def _dotted(expr: ast.AST) -> str | None:
 
 
 class Repo:
-    def __init__(self, root: str) -> None:
+    def __init__(self, root: str, canonical: bool = True) -> None:
         self.root = os.path.abspath(root)
         self.modules: dict[str, ModuleInfo] = {}
         self.classes: dict[str, ClassInfo] = {}
         self.funcs: dict[str, FuncInfo] = {}
         self._node_owner: dict[int, FuncInfo] = {}
+        self.canon_log: dict = {}
         self._discover()
+        if canonical:
+            from . import canon
+
+            trees = {name: m.tree for name, m in self.modules.items()}
+            try:
+                self.canon_log = canon.canonicalize(trees, canon.load_known())
+            except RecursionError as e:  # pragma: no cover
+                raise AnalysisError(f"canonicalisation failed: {e}") from e
+            for name, m in self.modules.items():
+                m.tree = trees[name]
         for m in self.modules.values():
             self._index_module(m)
         for c in self.classes.values():
